@@ -18,7 +18,7 @@ class Pipeline(C01pipe.Pipeline):
         cfw.call(w, 'write')
         return list(self.lines)
 
-WORDS = 'alpha beta gamma delta the of and HL {braces} A=1; x. "q" #R32768 a-b-c supercalifragilisticexpialidocious 1,2,3 (paren) end. * ; :colon'.split()
+WORDS = 'alpha beta gamma delta the of and HL {braces} A=1; x. "q" #R32768 a-b-c supercalifragilisticexpialidocious 1,2,3 (paren) end. * ; :colon .125 ...or'.split()
 
 PLAIN = """alpha beta gamma delta the of and HL A=1; x. "q" a-b-c supercalifragilisticexpialidocious 1,2,3 (paren) end. :colon it's 100% [sq] under_score""".split()
 
@@ -29,6 +29,8 @@ def text(rnd, lo=1, hi=14, words=WORDS):
 CODE = [c for c, v in C01pipe.CODE if not v and c[0] not in (0x18, 0x10, 0xC3, 0xCD, 0xCF, 0xFF)]
 ASM_DIRS = ('keep', 'nowarn', 'rem=a remark', 'isub=LD A,1 ; replaced', 'ssub=XOR A', 'ofix=NOP', 'bfix=INC A', 'rsub=LD B,2', 'nolabel', 'refs=32768', 'keep=1,2')
 ENTRY_DIRS = ('org', 'start', 'equ=NAME=5', 'set-tab=1', 'replace=/x/y', 'if({asm})(org)', 'writer=x.Y', 'end', 'expand=#LET(a=1)', 'assemble=2', 'defb=23296:1', 'bank=1')
+
+BASES_C = [0]          # the base prefixes of C sub-blocks are taken in turn, so a short run meets them all
 
 def gen_annotated(rnd, plain=False):
     """-> (memory, control file lines, start, end).  The entry / sub-block structure is chosen first (so every boundary is a statement
@@ -73,15 +75,28 @@ def gen_annotated(rnd, plain=False):
                 ctl.append('@ %d ignoreua:r' % ea)
             ctl.append('R %d A %s' % (ea, T(1, 8)))
             if rnd.random() < 0.6:
-                ctl.append('R %d %s %s' % (ea, rnd.choice(('O:HL', 'I:BC', 'HL', 'O:(DE)', "A'")), T(1, 20)))
+                desc = T(1, 20)
+                if not plain and rnd.random() < 0.5:
+                    desc = ' '.join(rnd.choice(('.125', '...or', 'alpha', 'the', 'delta', '.5')) for _ in range(rnd.randrange(12, 40))).lstrip('. ') or 'x'
+                ctl.append('R %d %s %s' % (ea, rnd.choice(('O:HL', 'I:BC', 'HL', 'O:(DE)', "A'")), desc))
             if rnd.random() < 0.2 and not plain:
                 ctl.append('R %d B' % ea)
         nsub = rnd.randrange(1, 6)
         subs = []                 # (ctl letter, address, length, spec, ninstr)
+        # now and then: a commentless sub-block, one comment over two sub-blocks of different types, a commentless sub-block of the first type
+        sandwich = None
+        if rnd.random() < 0.3:
+            x, y = rnd.sample('CBTSW', 2)
+            sandwich = [x, rnd.choice((x, y)), y if rnd.random() < 0.7 else x, x]
+            if sandwich[1] == sandwich[2]:
+                sandwich[2] = y if sandwich[1] == x else x
+            nsub = 4
         for si in range(nsub):
             sk = kind.upper() if kind in 'cbtsw' else 'B'
             if rnd.random() < 0.3:
                 sk = rnd.choice('CBTSW')
+            if sandwich:
+                sk = sandwich[si]
             sa_ = a
             if sk == 'C':
                 k = rnd.randrange(1, 5)
@@ -91,8 +106,9 @@ def gen_annotated(rnd, plain=False):
                         snap[a] = rnd.choice((0, 1, 33, 65, 127, 128, 200, 255)) if x is None else x
                         a += 1
                 spec = ''
-                if rnd.random() < 0.2:
-                    spec = ',%s%d' % (rnd.choice(('b', 'c', 'd', 'h', 'm', 'n', 'hb', 'dn')), a - sa_)
+                if rnd.random() < 0.35:
+                    BASES_C[0] += 1
+                    spec = ',%s%d' % (('b', 'c', 'd', 'h', 'm', 'n', 'hb', 'dn', 'mm', 'bd')[BASES_C[0] % 10], a - sa_)
                 subs.append(('C', sa_, a - sa_, spec, k))
             elif sk == 'B':
                 n = rnd.randrange(1, 17)
@@ -149,12 +165,16 @@ def gen_annotated(rnd, plain=False):
                     ctl.append('@ %d %s' % (sa_, d))
             if rnd.random() < 0.1:
                 ctl.append('@ %d ignoreua:i' % sa_)
-            if si > m_until and si + 1 < len(subs) and rnd.random() < 0.2:
+            if sandwich and si == 1:
+                m_until = 2
+                mlen = subs[2][1] + subs[2][2] - sa_
+                ctl.append('M %d,%d %s' % (sa_, mlen, T(2, 20)))
+            elif not sandwich and si > m_until and si + 1 < len(subs) and rnd.random() < 0.3:
                 m_until = rnd.randrange(si + 1, len(subs))
                 mlen = subs[m_until][1] + subs[m_until][2] - sa_
                 ctl.append('M %d,%d %s' % (sa_, mlen, T(2, 30) if plain else rnd.choice((T(2, 30), '.', '..'))))
             c = rnd.random()
-            if si <= m_until:
+            if si <= m_until or (sandwich and si in (0, 3)):
                 cm = ''
             elif c < 0.45:
                 cm = T(1, 25)
@@ -198,6 +218,12 @@ def run(ctx, repo):
             c2 = P.skool2ctl(s2, whex, 1, int(keep))
         except NotLiteral as e:
             ctx.limit('roundtrip', 'not foldable (%s): %s' % (name[:160], e))
+            continue
+        except (KeyError, IndexError, ValueError, TypeError, AttributeError) as e:
+            key = 'failure %s' % type(e).__name__
+            if key not in seen:
+                seen.add(key)
+                ctx.violation('roundtrip ' + key, where, 'sna2skool or skool2ctl fails with %s: %s; %s' % (type(e).__name__, e, name))
             continue
         if s1 != s2:
             i = next((i for i, (x, y) in enumerate(zip(s1, s2)) if x != y), min(len(s1), len(s2)))
